@@ -80,7 +80,8 @@ OpsSm ==
 
 OpsPm ==
   {[op |-> "succ", v |-> <<1>>], [op |-> "succ", v |-> BnU64Max], [op |-> "fail", v |-> <<1>>], [op |-> "fail", v |-> BnU64Max],
-   [op |-> "rt", d |-> Dms], [op |-> "rt", d |-> D1s], [op |-> "rt", d |-> DmaxD], [op |-> "rt", d |-> D2ms, times |-> 1000]} \cup
+   [op |-> "rt", d |-> Dms], [op |-> "rt", d |-> D1s], [op |-> "rt", d |-> DmaxD], [op |-> "rt", d |-> D2ms, times |-> 1000],
+   [op |-> "rt", d |-> Dms, times |-> 10], [op |-> "rt", d |-> D1s, times |-> 10], [op |-> "rt", d |-> D10s, times |-> 10]} \cup
   (IF Wide THEN {[op |-> "rt", d |-> D10s, times |-> 50], [op |-> "succ", v |-> <<19>>]} ELSE {})
 
 OpsExp ==
